@@ -33,16 +33,16 @@ KERNELS = {
     "C39": ["k_find_file", "k_do_find_file", "k_fsloader_find"],
     "C06": ["k_unique_id", "k_random"],
     "C11": ["k_plus_minus_units", "k_numeric_cmp", "k_unitset_simplify"],
-    "C13": ["k_map_merge", "k_map_find_value"],
+    "C13": ["k_map_merge", "k_map_find_value", "k_map_literal"],
     "C12": ["k_numeric_cmp", "k_value_eq_symmetric"],
     "C14": ["k_is_true", "k_and_or", "k_binop_short_circuit", "k_not"],
-    "C16": ["k_set_variable", "k_loop_scopes"],
+    "C16": ["k_set_variable", "k_loop_scopes", "k_store_restore_locals"],
     "C17": ["k_for_bounds", "k_if_dispatch"],
     "C36": ["k_comment_dispatch", "k_module_init"],
     "C37": ["k_do_use_prefix", "k_use_with"],
     "C18": ["k_formal_args_eval", "k_callable_scopes"],
-    "C20": ["k_bubble", "k_dest_start"],
-    "C21": ["k_error_and_drop", "k_dest_start", "k_declaration_arms"],
+    "C20": ["k_bubble", "k_dest_start", "k_selector_ctx"],
+    "C21": ["k_error_and_drop", "k_dest_start", "k_declaration_arms", "k_lock_pairing"],
     "C26": ["k_str_slice", "k_str_insert", "k_str_index_length"],
     "C29": ["k_math_bounding", "k_math_percentage", "k_math_clamp", "k_css_clamp", "k_find_extreme"],
     "C28": ["k_index_of", "k_set_nth", "k_append_join", "k_list_separator", "k_list_index", "k_nth", "k_get_list"],
@@ -340,6 +340,8 @@ STRUCTURAL_PROBES = {
     "k_map_find_value": [("map-get((a: 1, b: 2), b)", "2"), ("inspect(map-get((a: 1, b: 2), c))", "null"), ("map-has-key((a: 1), a)", "true"), ("map-has-key((a: 1), b)", "false"),
                          ("map.get((a: (b: (c: 3))), a, b, c)", "3"), ("inspect(map.get((a: (b: 2)), a, x))", "null"), ("inspect(map.get((a: 1), a, b))", "null"),
                          ("map.has-key((a: (b: 2)), a, b)", "true"), ("map-get((1: x), 1.0)", "x"), ("map-get((1px: x, 1: y), 1)", "y")],
+    "k_map_literal": [("inspect((a: 1, b: 2))", "(a: 1, b: 2)"), ("inspect((a: 1, a: 2))", "<error>"), ("inspect((a: 1, \"a\": 2))", "<error>"), ("inspect((1: x, 1.0: y))", "<error>"),
+                      ("inspect((1in: x, 96px: y))", "<error>"), ("inspect((a: 1, b: (a: 2)))", "(a: 1, b: (a: 2))"), ("inspect((a: 1, b: 2, a: 3))", "<error>")],
     "k_map_merge": [("inspect(map-merge((c: old), (c: new, e: f)))", "(c: new, e: f)"), ("inspect(map-merge((a: 1, b: 2), (b: 3)))", "(a: 1, b: 3)"),
                     ("inspect(map-merge((y: 0), (x: 1, y: 2, z: 3)))", "(y: 2, x: 1, z: 3)"), ("inspect(map-merge((), (a: 1)))", "(a: 1)")],
     "k_if_dispatch": [("@if () { a { b: 1 } } @else { a { b: 2 } }", "b: 1"), ("@if null { a { b: 1 } } @else { a { b: 2 } }", "b: 2"),
@@ -531,6 +533,21 @@ STRUCTURAL_PROBES["k_declaration_arms"] = [
     ("a { b: 1px + 1s }", "<error>"),
     ("a { b: (x: y) }", "<error>"),
     ("a { b: $undefined }", "<error>"),
+]
+STRUCTURAL_PROBES["k_store_restore_locals"] = [
+    ("$x: outer; .a { @each $x in 1 2 { i: $x; } $x: changed !global; v: $x; }", "v: changed"),
+    ("$x: outer; .a { @each $x in 1 2 { i: $x; } v: $x; }", "v: outer"),
+    (".a { $x: local; @each $x in 1 2 { i: $x; } v: $x; }", "v: local"),
+    (".a { @each $x in 1 2 { i: $x; } v: variable-exists(x); }", "v: false"),
+]
+STRUCTURAL_PROBES["k_selector_ctx"] = [
+    (".a { @at-root { @at-root .b & { c: d } } }", ".b .a { c: d; }"),
+    (".a { @at-root .b & { c: d } }", ".b .a { c: d; }"),
+    (".a { @at-root .b { c: d } }", ".b { c: d; }"),
+    (".a { @at-root { .b { c: d } } }", ".b { c: d; }"),
+    (".a { @at-root { & .b { c: d } } }", ".a .b { c: d; }"),
+    (".a { .b & { c: d } }", ".b .a { c: d; }"),
+    (".a { @at-root { @media print { @at-root .b & { c: d } } } }", "@media print { .b .a { c: d; } }"),
 ]
 STRUCTURAL_PROBES["k_module_init"] = [
     (({"a.scss": '@use "lib";\n.main { c: d }\n', "_lib.scss": "/* hello */\n.lib { /* in rule */ a: b }\n"}, "[compressed]a.scss"), ".lib{a:b}.main{c:d}"),
